@@ -77,6 +77,9 @@ def _ex(n):
         return ("throw", (ch[0].get("type") or {}).get("qualType") if ch else None)
     if k == "CXXScalarValueInitExpr":
         return ("valueinit",)
+    if k == "CXXConstCastExpr":
+        ch = inner(n)
+        return ("constcast", sxast.ex(ch[-1])) if ch else ("?", k)
     return _ex0(n)
 
 
@@ -283,6 +286,30 @@ def is_default_value(s):
     return s == ("valueinit",) or (isinstance(s, tuple) and len(s) == 2 and s[0] == "construct")
 
 
+def forwarded_member(env, e):
+    """`return other_member(key);` on this object (possibly through const_cast<FlatMap*>(this)): which member, which
+    overload (a const member reaches the const overload unless const is cast away)"""
+    name = obj = None
+    args = ()
+    if e[0] == "op" and e[1] == "operator[]" and len(e) == 4:
+        name, obj, args = "operator[]", e[2], e[3:]
+    elif e[0] == "mcall" and e[1] in ("at", "at_index", "operator[]", "contains", "size", "empty"):
+        name, obj, args = e[1], e[2], e[3:]
+    if name is None:
+        return None
+    cst = env.const
+    while isinstance(obj, tuple) and obj and (obj[0] == "constcast" or obj[:3] == ("un", "*", "pre")):
+        if obj[0] == "constcast":
+            cst = False              # the casts in this code base only ever remove const
+            obj = obj[1]
+        else:
+            obj = obj[3]
+    if obj != "this" or not (args == () or (len(args) == 1 and env.is_param(args[0], 0))):
+        return None
+    m = FM_NAME.get((name, 1 if cst else 0)) or FM_NAME.get((name, 1))
+    return m if m in FM_METHS else None
+
+
 def f_simple(env, s):
     s = unwrap(s)
     k = s[0] if isinstance(s, tuple) else s
@@ -328,6 +355,9 @@ def f_simple(env, s):
                 return "FReserveArg"        # `return values.reserve(size);` in a void function
         if (e[0] == "op" and e[1] in ("operator==", "operator!=")) or (e[0] == "un" and e[1] == "!"):
             return P("FRetCond", f_cond(env, e))
+        fw = forwarded_member(env, e)
+        if fw:
+            return P("FRetCall", fw)
         return P("FRetIter", f_iter(env, e))
     env.note("statement", s)
     return "FSUnknown"
@@ -368,7 +398,7 @@ def fm_elemkey(s, lam):
 def extract_fm(docs, notes):
     """-> {inst: {meth: [coq stmt]}}, member facts"""
     tables = {}
-    facts = {"ff_values_vector_of_pairs": True, "ff_ctor_defaulted": True, "ff_const_index_uninstantiable": False}
+    facts = {"ff_values_vector_of_pairs": True, "ff_ctor_defaulted": True}
     for d in docs:
         if d.get("kind") != "ClassTemplateDecl" or d.get("name") != "FlatMap":
             continue
@@ -689,20 +719,84 @@ def extract_po(docs, notes):
     return tabs, facts
 
 
+# ------------------------------------------------------------------ closed member lists
+KIND = {"TypeAliasDecl": "type", "TypedefDecl": "type", "CXXConstructorDecl": "ctor", "CXXDestructorDecl": "dtor", "CXXMethodDecl": "method",
+        "FieldDecl": "field", "VarDecl": "static", "CXXConversionDecl": "conversion", "FriendDecl": "friend", "EnumDecl": "enum"}
+
+
+def declared(rec, prefix=""):
+    """every member the class definition declares (implicit ones excepted), as `kind name : type`"""
+    out = []
+    for c in inner(rec):
+        k = c.get("kind", "")
+        if c.get("isImplicit") or k == "AccessSpecDecl" or k.endswith("Comment"):
+            continue
+        ty = (c.get("type") or {}).get("qualType", "")
+        if k in ("FunctionTemplateDecl", "ClassTemplateDecl"):
+            pat = [x for x in inner(c) if x.get("kind") in ("CXXMethodDecl", "CXXConstructorDecl", "CXXRecordDecl", "CXXConversionDecl")]
+            pty = (pat[0].get("type") or {}).get("qualType", "") if pat else ""
+            out.append("%stemplate %s : %s" % (prefix, c.get("name"), pty))
+        elif k == "CXXRecordDecl":
+            out.append("%sstruct %s" % (prefix, c.get("name")))
+            out += declared(c, prefix + str(c.get("name")) + "::")
+        else:
+            out.append("%s%s %s : %s%s" % (prefix, KIND.get(k, k), c.get("name"), ty, " = default" if c.get("explicitlyDefaulted") else ""))
+    return out
+
+
+def declared_fm(docs):
+    for d in docs:
+        if d.get("kind") == "ClassTemplateDecl" and d.get("name") == "FlatMap":
+            for c in inner(d):
+                if c.get("kind") == "CXXRecordDecl":
+                    return declared(c)
+    return ["?"]
+
+
+def declared_po(docs):
+    for d in docs:
+        if d.get("kind") == "CXXRecordDecl" and d.get("name") == "ParameterizedObject" and d.get("completeDefinition"):
+            return declared(d)
+    return ["?"]
+
+
+PROBE = r'''#include "rkcommon/containers/FlatMap.h"
+int c10_probe(const rkcommon::containers::FlatMap<int, int> &c) { return c[1]; }
+'''
+
+
+def const_index_uninstantiable(repo, work, extra):
+    """operator[] const is on the exclusion list because it cannot be instantiated (push_back on a const vector): that
+    reason is re-established on every run - the day `c[k]` compiles the member has to be covered"""
+    import subprocess
+    src = os.path.join(work, "c10_probe.cpp")
+    open(src, "w").write(PROBE)
+    p = subprocess.run(["clang++", "-std=c++11", "-I" + repo] + list(extra) + ["-fsyntax-only", src],
+                       stdout=subprocess.PIPE, stderr=subprocess.PIPE, timeout=120)
+    return p.returncode != 0
+
+
 # ------------------------------------------------------------------ output
 def coq_bool(b):
     return "true" if b else "false"
 
 
-def coq_text(fm, ff, po, pf):
+def coq_str(x):
+    return '"' + x.replace('"', '""') + '"%string'
+
+
+def coq_text(fm, ff, po, pf, decl_fm=("?",), decl_po=("?",)):
     L = ["(* GENERATED by props/C10/factgen.py from the working tree - do not edit, not under version control. *)",
-         "From Coq Require Import List NArith.", "From C10 Require Import Model FactsDefs.", "Import ListNotations.", ""]
+         "From Coq Require Import List NArith String.", "From C10 Require Import Model FactsDefs.", "Import ListNotations.", ""]
+    L.append("Definition gen_fm_declared : list string :=\n  [" + ";\n   ".join(coq_str(x) for x in decl_fm) + "].\n")
+    L.append("Definition gen_po_declared : list string :=\n  [" + ";\n   ".join(coq_str(x) for x in decl_po) + "].\n")
     for inst in ("ii", "ss"):
         L.append("Definition gen_fm_%s (m : fmeth) : list fstmt :=\n  match m with" % inst)
         for m in FM_METHS:
             L.append("  | %s => %s" % (m, coq_list(fm[inst][m])))
         L.append("  end.\n")
-    L.append("Definition gen_ffacts : ffacts :=\n  mkFF %s %s." % (coq_bool(ff["ff_values_vector_of_pairs"]), coq_bool(ff["ff_ctor_defaulted"])))
+    L.append("Definition gen_ffacts : ffacts :=\n  mkFF %s %s %s." % (coq_bool(ff["ff_values_vector_of_pairs"]), coq_bool(ff["ff_ctor_defaulted"]),
+                                    coq_bool(ff.get("ff_const_index_uninstantiable", False))))
     L.append("")
     for v, nm in (("int", "gen_po_int"), ("T", "gen_po_T")):
         L.append("Definition %s (m : pmeth) : list pstmt :=\n  match m with" % nm)
@@ -750,13 +844,18 @@ def main(argv):
     docs_p = sxast.dump(a.repo, a.work, INST, "ParameterizedObject", "c10_inst", extra=extra)
     fm, ff = extract_fm(docs_f, notes)
     po, pf = extract_po(docs_p, notes)
-    text = coq_text(fm, ff, po, pf)
+    ff["ff_const_index_uninstantiable"] = const_index_uninstantiable(a.repo, a.work, extra)
+    if not ff["ff_const_index_uninstantiable"]:
+        notes.append("FlatMap::operator[] const can now be instantiated: it is on the exclusion list only because it could not")
+    decl_fm, decl_po = declared_fm(docs_f), declared_po(docs_p)
+    text = coq_text(fm, ff, po, pf, decl_fm, decl_po)
     if a.out:
         write_if_changed(a.out, text)
     else:
         sys.stdout.write(text)
     if a.json:
-        json.dump({"flatmap": fm, "flatmap_members": ff, "po": po, "po_members": pf, "notes": notes}, open(a.json, "w"), indent=1)
+        json.dump({"flatmap": fm, "flatmap_members": ff, "po": po, "po_members": pf, "notes": notes,
+                   "declared": {"FlatMap": decl_fm, "ParameterizedObject": decl_po}}, open(a.json, "w"), indent=1)
     return 0
 
 
